@@ -6,6 +6,7 @@
 From stdpp Require Import gmap.
 From Coq Require Import ZArith List Bool.
 From VF Require Import Base.Corr Model.Ledger Proofs.Ledger_lemmas Model.Paych Proofs.Paych_lemmas.
+From VF Require Model.Market Proofs.MarketBase_lemmas Proofs.Market_lemmas Model.MinerFunds Proofs.MinerFunds_lemmas.
 Import ListNotations.
 Open Scope Z_scope.
 
@@ -46,6 +47,33 @@ Theorem C01_paych_solvent : forall f t bal0 ops,
   0 <= bal0 -> let st := Paych_lemmas.run (Paych.init f t bal0) ops in
   0 <= Paych.to_send st /\ (Paych.alive st = true -> Paych.to_send st <= Paych.balance st).
 Proof. exact to_send_bounds. Qed.
+
+
+(* the storage market always holds at least the sum of all escrow balances: every reachable state of the
+   market model (any history of deposits, withdrawals, publications, activations, settlements,
+   terminations and cron ticks with non-decreasing epochs) *)
+Theorem C01_market_solvent : forall ivl ops,
+  Market_lemmas.hist_ok 0 ops ->
+  MarketBase_lemmas.bsum (Market.escrow (Market.run (Market.init ivl) ops))
+    <= Market.balance (Market.run (Market.init ivl) ops).
+Proof.
+  intros ivl ops H. eapply Market_lemmas.market_solvent. apply Market_lemmas.market_inv_reachable. exact H.
+Qed.
+
+(* each miner holds at least its pre-commit deposits plus vesting funds plus initial pledge, after every
+   operation of every history (accepted or rejected, whatever the nested calls answered); the amounts
+   computed by the un-modelled pledge/penalty formulas are inputs of the operations *)
+Theorem C01_miner_solvent : forall balance deposit epoch p own wrk ops,
+  0 <= deposit <= balance ->
+  let s := MinerFunds_lemmas.run (MinerFunds.init balance deposit epoch p own wrk) ops in
+  0 <= MinerFunds.pcd (MinerFunds.fu s) /\ 0 <= MinerFunds.ip (MinerFunds.fu s) /\
+  MinerFunds.locked (MinerFunds.fu s) + MinerFunds.pcd (MinerFunds.fu s) + MinerFunds.ip (MinerFunds.fu s)
+    <= MinerFunds.bal s.
+Proof.
+  intros balance deposit epoch p own wrk ops H.
+  destruct (MinerFunds_lemmas.history_invariant balance deposit epoch p own wrk ops H) as (_ & _ & ? & ? & _ & ?).
+  repeat split; assumption.
+Qed.
 
 (* non-vacuity: a message with a tolerated failed nested send and a burn *)
 Example C01_nonvacuous :
